@@ -126,6 +126,10 @@ impl MmrSuccessorProof {
             return false;
         }
 
+        if old_mmra.num_leafs().count_ones() as usize != old_mmra.peaks().len() {
+            return false;
+        }
+
         let mut ap_index = 0;
         let mut running_leaf_count = 0;
         let strip_top_bit = |num: u64| (num.ilog2(), num - (1 << num.ilog2()));
